@@ -86,6 +86,7 @@ pub async fn run(out: &mut Out) {
     let mut rng = Rng(out.seed() ^ 0xC10);
     let thorough = out.tier_thorough();
     let o = origin().await;
+    let o2 = origin().await;
     // ---- world B: http listener -> direct (the second hop)
     let mut wb = world(&[], 10);
     {
@@ -95,18 +96,35 @@ pub async fn run(out: &mut Out) {
     }
     set_rules(&wb, &[("direct".into(), None)]).await.unwrap();
     let b_http = start_listener(&wb, "name: http\ntype: http").await;
+    let pki = super::relay::PKI;
+    let b_quic = super::relay::start_listener_udp(&wb, &format!("name: quic\ntype: quic\ntls:\n  cert: {}/server.crt\n  key: {}/server.key", pki, pki)).await;
     // ---- world A: reverse-UDP + two socks listeners; direct and http connectors
     let mut wa = world(&[], 10);
     {
         let st = Arc::get_mut(&mut wa.state).unwrap();
         st.connectors.insert("direct".into(), real_connector("name: direct\ntype: direct").await);
         st.connectors.insert("hop".into(), real_connector(&format!("name: hop\ntype: http\nserver: 127.0.0.1\nport: {}", b_http)).await);
+        // UDP over a QUIC hop to the second instance: RPFM frames as QUIC datagrams (fragmented to the path MTU), or inline on the stream
+        st.connectors.insert("qhop".into(), real_connector(&format!("name: qhop\ntype: quic\nserver: localhost\nport: {}\nbind: \"127.0.0.1:0\"\ntls:\n  ca: {}/ca.crt", b_quic, pki)).await);
+        st.connectors.insert("qhopi".into(), real_connector(&format!("name: qhopi\ntype: quic\nserver: localhost\nport: {}\nbind: \"127.0.0.1:0\"\ninlineUdp: true\ntls:\n  ca: {}/ca.crt", b_quic, pki)).await);
         st.timeouts.udp = 30;
     }
-    set_rules(&wa, &[("hop".into(), Some("request.listener == \"socks2\"".into())), ("direct".into(), None)]).await.unwrap();
+    set_rules(
+        &wa,
+        &[
+            ("hop".into(), Some("request.listener == \"socks2\"".into())),
+            ("qhop".into(), Some("request.listener == \"socks3\"".into())),
+            ("qhopi".into(), Some("request.listener == \"socks4\"".into())),
+            ("direct".into(), None),
+        ],
+    )
+    .await
+    .unwrap();
     let rport = start_listener(&wa, &format!("name: rudp\ntype: reverse\ntarget: 127.0.0.1:{}\nprotocol: udp", o.port)).await;
     let socks1 = start_listener(&wa, "name: socks\ntype: socks").await;
     let socks2 = start_listener(&wa, "name: socks2\ntype: socks").await;
+    let socks3 = start_listener(&wa, "name: socks3\ntype: socks").await;
+    let socks4 = start_listener(&wa, "name: socks4\ntype: socks").await;
     tokio::time::sleep(std::time::Duration::from_millis(50)).await;
 
     // ---- reverse-UDP: several clients interleaved; the first datagram of every session included
@@ -142,7 +160,7 @@ pub async fn run(out: &mut Out) {
     }
 
     // ---- SOCKS5 UDP ASSOCIATE, direct and over an inline HTTP hop
-    for (path, sport) in [("direct", socks1), ("http-inline", socks2)] {
+    for (path, sport) in [("direct", socks1), ("http-inline", socks2), ("quic-datagrams", socks3), ("quic-inline", socks4)] {
         for _round in 0..(if thorough { 10 } else { 3 }) {
             let mut tcp = TcpStream::connect(("127.0.0.1", sport)).await.unwrap();
             let _ = tcp.write_all(&[5, 1, 0, 5, 3, 0, 1, 0, 0, 0, 0, 0, 0]).await;
@@ -156,39 +174,124 @@ pub async fn run(out: &mut Out) {
             let us = UdpSocket::bind("127.0.0.1:0").await.unwrap();
             let n = rng.range(2, 7);
             let mut sent = vec![];
+            let mut dests = vec![];
+            let marks = [o.seen.lock().unwrap().len(), o2.seen.lock().unwrap().len()];
             for _ in 0..n {
                 let len = *rng.pick(if path == "direct" { sizes } else { &[0usize, 1, 100, 1200, 8000, 30000][..] });
-                let p = payload(&mut rng, len.min(60000), 9);
-                // SOCKS5 UDP header: RSV RSV FRAG ATYP=1 127.0.0.1 port
-                let mut d = vec![0, 0, 0, 1, 127, 0, 0, 1];
-                d.extend(o.port.to_be_bytes());
+                // the payload names its destination, so that a datagram delivered to the wrong origin is recognisable
+                let k = rng.below(2);
+                let by_name = rng.chance(1, 2);
+                let mut p = payload(&mut rng, len.min(60000), 9);
+                if !p.is_empty() {
+                    p[0] = k as u8;
+                }
+                let oport = if k == 0 { o.port } else { o2.port };
+                // SOCKS5 UDP header: RSV RSV FRAG, then ATYP=1 127.0.0.1 or ATYP=3 "localhost", port
+                let mut d = if by_name {
+                    let mut d = vec![0, 0, 0, 3, 9];
+                    d.extend(b"localhost");
+                    d
+                } else {
+                    vec![0, 0, 0, 1, 127, 0, 0, 1]
+                };
+                d.extend(oport.to_be_bytes());
                 d.extend(&p);
                 let _ = us.send_to(&d, ("127.0.0.1", bport)).await;
                 sent.push(p);
+                dests.push(k);
                 tokio::time::sleep(std::time::Duration::from_millis(5)).await;
             }
             let got = recv_all(&us, n, 2000).await;
-            // every reply must carry the header naming the origin (the replying address) and the identical payload
-            let mut bodies = vec![];
+            // every reply must carry the header naming the replying address and the identical payload; replies of different
+            // origins may overtake each other (UDP), replies of one origin are compared in order
+            let mut by_origin: [Vec<Vec<u8>>; 2] = [vec![], vec![]];
             let mut labelled = true;
             for g in got.iter() {
-                if g.len() >= 10 && g[3] == 1 {
-                    labelled &= g[4..8] == [127, 0, 0, 1] && g[8..10] == o.port.to_be_bytes();
-                    bodies.push(g[10..].to_vec());
+                if g.len() >= 10 && g[3] == 1 && g[4..8] == [127, 0, 0, 1] {
+                    let port = u16::from_be_bytes([g[8], g[9]]);
+                    if port == o.port {
+                        by_origin[0].push(g[10..].to_vec());
+                    } else if port == o2.port {
+                        by_origin[1].push(g[10..].to_vec());
+                    } else {
+                        labelled = false;
+                    }
                 } else {
                     labelled = false;
-                    bodies.push(g.clone());
                 }
             }
-            out.case(&format!("S {} {}", path, sig(&sent)), &format!("{} labelled={}", sig(&bodies), labelled as u8));
-            out.stat(&format!("socks_udp_{}", path));
-            if bodies != sent {
-                out.oracle_fail("socks-udp-datagrams", &format!("{}: sent {} got back {}", path, sig(&sent), sig(&bodies)));
+            let want_of = |k: usize| -> Vec<Vec<u8>> { sent.iter().zip(dests.iter()).filter(|(_, d)| **d == k).map(|(p, _)| p.clone()).collect() };
+            let echoed = by_origin[0] == want_of(0) && by_origin[1] == want_of(1);
+            // each origin received exactly the datagrams addressed to it, in order
+            let mut routed = true;
+            for (k, org) in [&o, &o2].iter().enumerate() {
+                let seen: Vec<Vec<u8>> = org.seen.lock().unwrap()[marks[k]..].iter().map(|x| x.1.clone()).collect();
+                let want: Vec<Vec<u8>> = sent.iter().zip(dests.iter()).filter(|(_, d)| **d == k).map(|(p, _)| p.clone()).collect();
+                if seen != want {
+                    routed = false;
+                    out.oracle_fail("delivered-to-wrong-destination", &format!("{}: origin {} (127.0.0.1:{}) was addressed {} and received {}", path, k, org.port, sig(&want), sig(&seen)));
+                }
+            }
+            let hist: Vec<String> = sent.iter().zip(dests.iter()).map(|(p, k)| format!("{}:{}:{:x}", k, p.len(), fnv(p) & 0xffff)).collect();
+            let sg = |v: &Vec<Vec<u8>>| if v.is_empty() { "-".to_string() } else { v.iter().map(|p| format!("{}:{:x}", p.len(), fnv(p) & 0xffff)).collect::<Vec<_>>().join(",") };
+            out.case(&format!("S {} {}", path, hist.join(",")), &format!("{} | {} labelled={} routed={}", sg(&by_origin[0]), sg(&by_origin[1]), labelled as u8, routed as u8));
+            out.stat(&format!("socks_udp_{}", path.replace('-', "_")));
+            if !echoed {
+                out.oracle_fail("socks-udp-datagrams", &format!("{}: sent {} got back {} from origin 0 and {} from origin 1", path, hist.join(","), sg(&by_origin[0]), sg(&by_origin[1])));
             }
             if !labelled {
-                out.oracle_fail("reply-not-labelled", &format!("{}: a reply does not name the replying address 127.0.0.1:{}", path, o.port));
+                out.oracle_fail("reply-not-labelled", &format!("{}: a reply does not name the replying address (127.0.0.1:{} / {})", path, o.port, o2.port));
             }
             drop(tcp);
+        }
+    }
+
+    // ---- the QUIC datagram channel fragments a frame to the path's datagram size, which this harness does not know: a sweep
+    // of consecutive payload lengths crosses every multiple of (size - 4) in the range the transport can report
+    {
+        let (lo, hi) = if thorough { (1000usize, 3000usize) } else { (1040, 1480) };
+        let mut tcp = TcpStream::connect(("127.0.0.1", socks3)).await.unwrap();
+        let _ = tcp.write_all(&[5, 1, 0, 5, 3, 0, 1, 0, 0, 0, 0, 0, 0]).await;
+        let mut rep = [0u8; 12];
+        if tokio::time::timeout(std::time::Duration::from_secs(3), tcp.read_exact(&mut rep)).await.map(|r| r.is_err()).unwrap_or(true) {
+            out.case("Q sweep", "no-association");
+            out.oracle_fail("udp-associate-failed", "quic-datagrams sweep");
+        } else {
+            let bport = u16::from_be_bytes([rep[10], rep[11]]);
+            let us = UdpSocket::bind("127.0.0.1:0").await.unwrap();
+            let mut missing = vec![];
+            let mut wrong = 0;
+            // batches of 12 datagrams of distinct lengths: a reply is matched to its request by its length
+            let lens: Vec<usize> = (lo..=hi).collect();
+            for batch in lens.chunks(12) {
+                let mut want: std::collections::HashMap<usize, Vec<u8>> = Default::default();
+                for &len in batch {
+                    let mut p = payload(&mut rng, len, 7);
+                    p[0] = 0;
+                    let mut d = vec![0, 0, 0, 1, 127, 0, 0, 1];
+                    d.extend(o.port.to_be_bytes());
+                    d.extend(&p);
+                    let _ = us.send_to(&d, ("127.0.0.1", bport)).await;
+                    want.insert(len, p);
+                    out.stat("quic_datagram_sweep");
+                }
+                for g in recv_all(&us, batch.len(), 500).await {
+                    if g.len() >= 10 {
+                        match want.remove(&(g.len() - 10)) {
+                            Some(p) if p[..] == g[10..] => {}
+                            _ => wrong += 1,
+                        }
+                    } else {
+                        wrong += 1;
+                    }
+                }
+                missing.extend(want.keys().copied());
+            }
+            missing.sort();
+            out.case(&format!("Q sweep {} {}", lo, hi), &format!("missing={} wrong={}", missing.len(), wrong));
+            if !missing.is_empty() || wrong > 0 {
+                out.oracle_fail("socks-udp-datagrams", &format!("quic-datagrams: payload lengths {:?} were not echoed back ({} echoed with a different payload)", &missing[..missing.len().min(12)], wrong));
+            }
         }
     }
 
